@@ -16,6 +16,8 @@ Rules
   R1.4  identity and payload pass through: the loader builds each part from (partname, content_types[partname],
         reader[partname]) with one and the same partname; Part.load / Part.__init__ store the three unchanged and
         partname / content_type / blob return the stored fields; XmlPart parses the blob it was given
+  R1.5  relative references come from the path algebra (posixpath.relpath / join + normalisation); no string-prefix test or
+        slicing by the length of a directory name
   (byte identity of members, XML equivalence, second-save idempotence: not decided)
 """
 
@@ -236,6 +238,38 @@ def content_type_rules(ctx, prog, ser, pk, spec, ox, rid):
     else:
         ctx.violation(rid, "CaseInsensitiveDict", "lookup, membership and store do not all lower-case the key: %s" % lowered,
                       file=sh.relpath, line=cid.line)
+    # API discipline: only `in`, `[k]` and `[k] = v` lower the key; .get/.pop/.setdefault/.update and the constructor bypass the
+    # lowering, so they may be used only with keys that are lowered at the call site
+    overridden = set(cid.methods)
+    n_use = 0
+    for g in prog.all_functions():
+        names = set()
+        for n in ast.walk(g.node):
+            if isinstance(n, ast.Assign) and isinstance(n.value, ast.Call) and dotted(n.value.func) == "CaseInsensitiveDict":
+                for t in n.targets:
+                    if dotted(t):
+                        names.add(dotted(t))
+        if g.cls is not None and g.cls.name == "_ContentTypeMap":
+            names |= {"self._overrides", "self._defaults"}
+        if not names:
+            continue
+        for n in ast.walk(g.node):
+            if isinstance(n, ast.Call) and isinstance(n.func, ast.Attribute) and dotted(n.func.value) in names:
+                m = n.func.attr
+                n_use += 1
+                key = "%s:%s.%s" % (g.qualname, dotted(n.func.value), m)
+                if m in ("items", "values", "keys", "__len__", "copy"):
+                    ctx.ok(rid, key, nontrivial=False)
+                    continue
+                k = n.args[0] if n.args else None
+                lowered_key = isinstance(k, ast.Call) and isinstance(k.func, ast.Attribute) and k.func.attr == "lower"
+                if "__%s__" % m in overridden or lowered_key:
+                    ctx.ok(rid, key, nontrivial=False)
+                else:
+                    ctx.violation(rid, key, "`%s` is called on a CaseInsensitiveDict: only membership, indexing and item assignment lower the key, "
+                                  ".%s() compares the key as given, so a differently-cased extension / part name is not found" % (ast.unparse(n)[:60], m),
+                                  file=g.file, line=n.lineno)
+    ctx.count("case_insensitive_dict_calls", n_use)
 
 
 
@@ -431,7 +465,22 @@ def run(ctx):
         if isinstance(n, ast.comprehension) and dotted(n.iter) in ("self", "self._rels") and not n.ifs:
             all_keys = True
     ret = [n.value for n in ast.walk(xmlp.node) if isinstance(n, ast.Return) and dotted(n.value) and dotted(n.value).endswith(".xml_file_bytes")]
-    if good and all_keys and ret:
+    lossy = []
+    for n in ast.walk(xmlp.node):
+        if isinstance(n, (ast.DictComp, ast.SetComp)) and any(dotted(g_.iter) in ("self", "self._rels") or (
+                isinstance(g_.iter, ast.Call) and dotted(g_.iter.func) in ("self.keys", "self._rels.keys", "self.items", "self.values")) for g_ in n.generators):
+            kexpr = n.key if isinstance(n, ast.DictComp) else n.elt
+            tv = n.generators[0].target
+            tnames = {x.id for x in ast.walk(tv) if isinstance(x, ast.Name)}
+            injective = (isinstance(kexpr, ast.Name) and kexpr.id in tnames) or (
+                isinstance(kexpr, ast.Tuple) and any(isinstance(e, ast.Name) and e.id in tnames for e in kexpr.elts)) or (
+                isinstance(kexpr, ast.Attribute) and kexpr.attr == "rId")
+            if not injective:
+                lossy.append(ast.unparse(n)[:70])
+    if lossy:
+        ctx.violation("R1.3", "_Relationships.xml:lossy", "relationships pass through `%s`, keyed by a value that is not the relationship id itself: "
+                      "two ids with the same key collapse into one and the others are not written" % lossy[0], file=xmlp.file, line=xmlp.line)
+    elif good and all_keys and ret:
         ctx.ok("R1.3", "_Relationships.xml", sample={"per_relationship": "add_rel(rId, reltype, target_ref, is_external) for every key"})
     else:
         ctx.violation("R1.3", "_Relationships.xml", "not every relationship is serialised with its (rId, reltype, target_ref, is_external) "
@@ -630,3 +679,50 @@ def run(ctx):
             else:
                 ctx.violation("R1.4", key, "overriding load() does not forward (partname, content_type, package)", file=f.file, line=f.line)
     ctx.count("load_overrides", n_over)
+
+
+    # -- R1.5 --------------------------------------------------------------------------------------------
+    ctx.rule("R1.5", "relative references are computed by the path algebra, never by string prefixes of directory names")
+    pu = prog.modules.get("pptx.opc.packuri")
+    if pu is None:
+        raise AnalysisError("anchor vanished: pptx.opc.packuri")
+    npfx = 0
+    for g in prog.all_functions():
+        if g.module is not pu:
+            continue
+        dirs = {a.arg for a in g.node.args.args if "base" in a.arg.lower() or "dir" in a.arg.lower()}
+        for n in ast.walk(g.node):
+            if isinstance(n, ast.Assign) and isinstance(n.targets[0], ast.Name):
+                v = ast.unparse(n.value)
+                if ".baseURI" in v or "posixpath.dirname" in v or "posixpath.split" in v:
+                    dirs.add(n.targets[0].id)
+        for n in ast.walk(g.node):
+            bad = None
+            if isinstance(n, ast.Call) and isinstance(n.func, ast.Attribute) and n.func.attr in ("startswith", "removeprefix", "find", "index", "replace", "partition") \
+                    and n.args and ((isinstance(n.args[0], ast.Name) and n.args[0].id in dirs) or ast.unparse(n.args[0]).endswith(".baseURI")):
+                bad = ast.unparse(n)
+            if isinstance(n, ast.Subscript) and isinstance(n.slice, ast.Slice):
+                for b in (n.slice.lower, n.slice.upper):
+                    if b is not None and any(isinstance(x, ast.Call) and dotted(x.func) == "len" and x.args and (
+                            (isinstance(x.args[0], ast.Name) and x.args[0].id in dirs) or ast.unparse(x.args[0]).endswith(".baseURI")) for x in ast.walk(b)):
+                        bad = ast.unparse(n)
+            if bad:
+                npfx += 1
+                ctx.violation("R1.5", "%s:%s" % (g.qualname, bad[:40]), "`%s` compares or cuts a path by the characters of a directory name: "
+                              "/doc is a character prefix of /docs/x and of /doc-old/x, which are not below it, so the relative reference "
+                              "written for such a target resolves to a different part name" % bad, file=g.file, line=n.lineno)
+    rr = prog.func("pptx.opc.packuri", "PackURI.relative_ref")
+    rets = [x.value for x in walk_own(rr.node) if isinstance(x, ast.Return)]
+    uses_relpath = any(isinstance(c, ast.Call) and dotted(c.func) == "posixpath.relpath" and [dotted(a) for a in c.args] == ["self", rr.node.args.args[1].arg]
+                       for r in rets for c in ast.walk(r))
+    if uses_relpath:
+        ctx.ok("R1.5", "PackURI.relative_ref", sample={"general_case": "posixpath.relpath(self, baseURI)", "prefix_tests_on_directories": npfx})
+    else:
+        ctx.violation("R1.5", "PackURI.relative_ref", "the general case is not posixpath.relpath(self, baseURI)", file=rr.file, line=rr.line)
+    frr = prog.func("pptx.opc.packuri", "PackURI.from_rel_ref")
+    fsrc = [dotted(c.func) for c in ast.walk(frr.node) if isinstance(c, ast.Call)]
+    if "posixpath.join" in fsrc and ("posixpath.abspath" in fsrc or "posixpath.normpath" in fsrc):
+        ctx.ok("R1.5", "PackURI.from_rel_ref", sample={"computed_by": "posixpath.join + abspath/normpath"})
+    else:
+        ctx.violation("R1.5", "PackURI.from_rel_ref", "a relative reference is not resolved with posixpath.join and normalisation (%s)" % fsrc,
+                      file=frr.file, line=frr.line)
